@@ -106,6 +106,17 @@ def alias(expr: ast.AST, texts: Iterable[str], to: str) -> ast.AST:
     return A().visit(copy.deepcopy(expr))
 
 
+def sole_unpack(s: ast.stmt) -> tuple[str, ast.AST] | None:
+    """`(x,) = S` / `[x] = S` as (x, `next(iter(S))`): the only element of a one-element collection (the statement
+    raises for any other size; as a *value* it is the element a `pop()` / `next(iter())` of that collection gives)."""
+    if isinstance(s, ast.Assign) and len(s.targets) == 1 and isinstance(s.targets[0], (ast.Tuple, ast.List)) \
+            and len(s.targets[0].elts) == 1 and isinstance(s.targets[0].elts[0], ast.Name):
+        it = ast.Call(func=ast.Name(id="iter", ctx=ast.Load()), args=[s.value], keywords=[])
+        nx = ast.Call(func=ast.Name(id="next", ctx=ast.Load()), args=[it], keywords=[])
+        return s.targets[0].elts[0].id, ast.fix_missing_locations(ast.copy_location(nx, s.value))
+    return None
+
+
 def single_defs(fn: FuncNode) -> dict[str, ast.AST]:
     """name -> value for the locals bound exactly once in `fn` (by a plain or annotated assignment)."""
     count: dict[str, int] = {}
@@ -136,6 +147,8 @@ def single_defs(fn: FuncNode) -> dict[str, ast.AST]:
                 vals[n.targets[0].id] = n.value
             elif isinstance(n, ast.AnnAssign) and isinstance(n.target, ast.Name) and n.value is not None:
                 vals[n.target.id] = n.value
+            elif isinstance(n, ast.Assign) and sole_unpack(n) is not None:
+                vals[sole_unpack(n)[0]] = sole_unpack(n)[1]  # type: ignore[index]
     out: dict[str, ast.AST] = {}
     for k, v in vals.items():
         if count.get(k, 0) == 1 and not any(isinstance(x, (ast.Await, ast.Yield, ast.YieldFrom)) for x in ast.walk(v)) \
@@ -286,7 +299,7 @@ class Folder:
                             for b in n.body for x in [b]):
                         continue  # a search loop (`if C: return K`): read as a quantifier
                     if isinstance(n, (ast.For, ast.AsyncFor, ast.While, ast.Try, ast.With, ast.AsyncWith, ast.Delete, ast.AugAssign)) \
-                            or (isinstance(n, ast.Assign) and any(not isinstance(t, ast.Name) for t in n.targets)) \
+                            or (isinstance(n, ast.Assign) and any(not isinstance(t, ast.Name) for t in n.targets) and sole_unpack(n) is None) \
                             or (isinstance(n, ast.Expr) and not (isinstance(n.value, ast.Constant) or (
                                 isinstance(n.value, ast.Call) and txt(n.value.func).split(".")[0] in ("_logger", "logging", "_log")))):
                         raise AnalysisError(f"{fi.qual} is not a pure value helper")
@@ -319,6 +332,10 @@ class Folder:
             if isinstance(s, ast.AnnAssign) and isinstance(s.target, ast.Name):
                 if s.value is not None:
                     env[s.target.id] = self.expr(s.value, env, fi, nested, depth)
+                continue
+            if sole_unpack(s) is not None:
+                name, only = sole_unpack(s)  # type: ignore[misc]
+                env[name] = self.expr(only, env, fi, nested, depth)
                 continue
             if isinstance(s, ast.AugAssign) and isinstance(s.target, ast.Name):
                 left = env.get(s.target.id, ast.Name(id=s.target.id, ctx=ast.Load()))
@@ -388,7 +405,7 @@ def _bool_const(e: ast.AST | None) -> bool | None:
 def _quantifier_loop(self: Folder, s: ast.stmt, rest: list[ast.stmt], env: dict[str, ast.AST], fi: FuncInfo,
                      nested: dict[str, FuncNode], depth: int) -> ast.AST | None:
     """A search loop as the quantifier it computes (None if `s` is not one)."""
-    if not (isinstance(s, ast.For) and isinstance(s.target, ast.Name) and not s.orelse and rest and isinstance(rest[0], ast.Return)):
+    if not (isinstance(s, ast.For) and _plain_target(s.target) and not s.orelse and rest and isinstance(rest[0], ast.Return)):
         return None
     after = _bool_const(rest[0].value)
     *binds, last = s.body
@@ -402,13 +419,15 @@ def _quantifier_loop(self: Folder, s: ast.stmt, rest: list[ast.stmt], env: dict[
         if not (isinstance(b, ast.Assign) and len(b.targets) == 1 and isinstance(b.targets[0], ast.Name)):
             return None
         local[b.targets[0].id] = subst(b.value, local)
-    var = f"{s.target.id}#{next(_fresh)}"
-    cond = rename(subst(last.test, local), {s.target.id: var})
+    # (the loop target may be a name or a tuple of names: `for is_device, is_meter in PAIRS`)
+    names = _target_names(s.target)
+    ren = {n: f"{n}#{next(_fresh)}" for n in sorted(names)}
+    cond = rename(subst(last.test, local), ren)
     if after:  # found a counter-example -> False, else True: all(not C)
         cond = ast.UnaryOp(op=ast.Not(), operand=cond)
-    comp = ast.GeneratorExp(elt=cond, generators=[ast.comprehension(target=ast.Name(id=var, ctx=ast.Store()), iter=s.iter, ifs=[], is_async=0)])
+    comp = ast.GeneratorExp(elt=cond, generators=[ast.comprehension(target=rename(s.target, ren), iter=s.iter, ifs=[], is_async=0)])
     call = ast.Call(func=ast.Name(id="all" if after else "any", ctx=ast.Load()), args=[comp], keywords=[])
-    inner_env = {k: v for k, v in env.items() if k != s.target.id}
+    inner_env = {k: v for k, v in env.items() if k not in names}
     return self.expr(ast.fix_missing_locations(ast.copy_location(call, s)), inner_env, fi, nested, depth)
 
 
@@ -580,6 +599,63 @@ def _cmp(left: ast.AST, op: ast.cmpop, right: ast.AST, neg: bool) -> Any:
     return ("not", base) if neg else base
 
 
+def _plain_target(t: ast.AST) -> bool:
+    """A binding target made of names only: `x`, `a, b`, `(a, (b, c))`."""
+    if isinstance(t, ast.Name):
+        return True
+    return isinstance(t, (ast.Tuple, ast.List)) and bool(t.elts) and all(_plain_target(x) for x in t.elts)
+
+
+def _destructure(target: ast.AST, item: ast.AST) -> dict[str, ast.AST] | None:
+    """Names of `target` bound to the matching parts of the literal `item`; None if `item` is not a literal of
+    the target's shape (or a name would be bound twice)."""
+    if isinstance(target, ast.Name):
+        return {target.id: item}
+    if not (isinstance(target, (ast.Tuple, ast.List)) and isinstance(item, (ast.Tuple, ast.List))
+            and len(target.elts) == len(item.elts) and not any(isinstance(x, ast.Starred) for x in item.elts)):
+        return None
+    out: dict[str, ast.AST] = {}
+    for t, v in zip(target.elts, item.elts):
+        sub = _destructure(t, v)
+        if sub is None or set(sub) & set(out):
+            return None
+        out.update(sub)
+    return out
+
+
+def _literal_items(e: ast.AST, ordered: bool = False) -> list[ast.AST] | None:
+    """The elements an iteration over `e` yields, if `e` is written out: a tuple / list / set display, a dict
+    display (its keys; `.items()` pairs; `.values()`), `zip` of written-out sequences, or a `tuple` / `list` /
+    `iter` / `set` / `frozenset` wrapper of one.  Only used for the truth value of all/any, where order and
+    repetition do not matter; `ordered`: only displays whose written order is the iteration order."""
+    if isinstance(e, (ast.Tuple, ast.List)) or (isinstance(e, ast.Set) and not ordered):
+        return None if any(isinstance(x, ast.Starred) for x in e.elts) else list(e.elts)
+    d = e if isinstance(e, ast.Dict) else None
+    view = "keys"
+    if isinstance(e, ast.Call) and not e.keywords and not e.args and isinstance(e.func, ast.Attribute) and isinstance(e.func.value, ast.Dict):
+        d, view = e.func.value, e.func.attr
+    if d is not None:
+        # (a repeated key keeps its first position and its last value: not read)
+        if any(k is None for k in d.keys) or len({txt(k) for k in d.keys}) != len(d.keys):
+            return None
+        if view == "items":
+            return [ast.Tuple(elts=[k, v], ctx=ast.Load()) for k, v in zip(d.keys, d.values)]  # type: ignore[list-item]
+        return list(d.keys) if view == "keys" else list(d.values) if view == "values" else None  # type: ignore[arg-type]
+    if isinstance(e, ast.Call) and not e.keywords and isinstance(e.func, ast.Name):
+        f = e.func.id
+        if f in ("tuple", "list", "iter") and len(e.args) == 1:
+            return _literal_items(e.args[0], ordered)
+        if f in ("set", "frozenset") and len(e.args) == 1 and not ordered:
+            return _literal_items(e.args[0])
+        if f == "zip" and e.args:
+            cols = [_literal_items(a, ordered=True) for a in e.args]
+            if any(c is None for c in cols):
+                return None
+            n = min(len(c) for c in cols)  # type: ignore[arg-type]
+            return [ast.Tuple(elts=[c[i] for c in cols], ctx=ast.Load()) for i in range(n)]  # type: ignore[index]
+    return None
+
+
 def bcanon(expr: ast.AST, neg: bool = False, depth: int = 0) -> Any:
     """Canonical form of `expr` read as a truth value (two-valued logic; order comparisons are not
     complemented, see `totalise`)."""
@@ -626,18 +702,23 @@ def bcanon(expr: ast.AST, neg: bool = False, depth: int = 0) -> Any:
             return bcanon(expr.args[0], neg, depth)
         if expr.func.id in ("all", "any") and isinstance(expr.args[0], (ast.GeneratorExp, ast.ListComp, ast.SetComp)) \
                 and len(expr.args[0].generators) == 1 and not expr.args[0].generators[0].is_async \
-                and isinstance(expr.args[0].generators[0].target, ast.Name):
+                and _plain_target(expr.args[0].generators[0].target):
             comp = expr.args[0]
             g = comp.generators[0]
-            if isinstance(g.iter, (ast.Tuple, ast.List, ast.Set)) and not any(isinstance(x, ast.Starred) for x in g.iter.elts):
-                # a quantifier over a literal collection is the and/or of its instances
+            items = _literal_items(g.iter)
+            envs = [_destructure(g.target, item) for item in items] if items is not None else [None]
+            if all(env is not None for env in envs):
+                # a quantifier over a literal collection is the and/or of its instances (the target may be a
+                # tuple of names bound to the components of literal tuples: a table of (leaf, meter) predicate pairs)
                 is_all = (expr.func.id == "all") != neg
                 insts = []
-                for item in g.iter.elts:
-                    env = {g.target.id: item}  # type: ignore[union-attr]
-                    parts = [bcanon(beta(subst(c, env)), is_all, depth) for c in g.ifs] + [bcanon(beta(subst(comp.elt, env)), neg, depth)]
+                for env in envs:
+                    parts = [bcanon(beta(subst(c, env)), is_all, depth) for c in g.ifs] + [bcanon(beta(subst(comp.elt, env)), neg, depth)]  # type: ignore[arg-type]
                     insts.append(_mk("or" if is_all else "and", parts))
                 return _mk("and" if is_all else "or", insts)
+            if not isinstance(g.target, ast.Name):
+                base = ("truthy", txt(expr))
+                return ("not", base) if neg else base
             var = f"?{depth}"
             ren = {g.target.id: var}  # type: ignore[union-attr]
             is_all = (expr.func.id == "all") != neg
